@@ -135,12 +135,17 @@ def values_equal(ctx, opname, ref, got, nfft_ops, nops, what):
         return True
     n = max(ref.shape[0], 2)
     scale = float(np.max(np.abs(ref[fin])))
-    tau = 64 * eps * (1 + np.log2(n)) * max(scale, np.finfo(ref.dtype).tiny) * max(nops, 1)
+    # measured on the unchanged tree (50k comparisons): 99.8 % bit-identical; every other
+    # case had an FFT in its pipeline and differed by < 4 eps * max|ref|. Elementwise-only
+    # pipelines get 4 eps (SIMD exp/sqrt tails), each FFT-based operation adds 16 eps (1+log2 N).
+    tau = eps * max(scale, np.finfo(ref.dtype).tiny) * (4 + 16 * (1 + np.log2(n)) * max(nfft_ops, 0))
     diff = float(np.max(np.abs(ref[fin] - got[fin])))
     if diff > tau:
         ctx.violate("dask-numpy-mismatch", f"{opname}:values",
                     f"{what}: max|diff|={diff:.3e} > tau={tau:.3e} (scale {scale:.3e})")
     ctx.counts["within_tau_not_bit_identical"] += 1
+    ulps = diff / (eps * max(scale, np.finfo(ref.dtype).tiny))
+    ctx.counts[f"nonidentical.{opname}.fft{min(nfft_ops, 1)}.ulps<{'4' if ulps < 4 else '64' if ulps < 64 else 'more'}"] += 1
     return False
 
 
